@@ -37,10 +37,10 @@ theorem stepKids_st (f : Node → St → Res) (P : St → St → Prop) (hrefl : 
     | outOfFuel => simp [hk, Res.st?] at h
 
 /-- what `unvisit`/`unvisitNil` leave in progress -/
-theorem erase_keeps (l : List Text) (t x : Text) (hx : x ∈ l) (hne : x ≠ t) : x ∈ l.erase t :=
+theorem erase_keeps (l : List Key) (t x : Key) (hx : x ∈ l) (hne : x ≠ t) : x ∈ l.erase t :=
   (List.mem_erase_of_ne hne).2 hx
 
-theorem finish_st (cfg : Cfg) (n' : Node) (kind : Kind) (id : Nat) (t : Text) (r : Res) (st' : St)
+theorem finish_st (cfg : Cfg) (n' : Node) (kind : Kind) (id : Nat) (t : Key) (r : Res) (st' : St)
     (h : (finish cfg n' kind id t r).st? = some st') :
     ∃ s2, r.st? = some s2 ∧ ∀ x ∈ s2.inprog, x ≠ t → x ∈ st'.inprog := by
   cases r with
@@ -62,7 +62,7 @@ theorem finish_st (cfg : Cfg) (n' : Node) (kind : Kind) (id : Nat) (t : Text) (r
   | panic s => simp [finish, Res.st?] at h
   | outOfFuel => simp [finish, Res.st?] at h
 
-theorem finishSingle_st (cfg : Cfg) (kind : Kind) (id : Nat) (t : Text) (r : Res) (st' : St)
+theorem finishSingle_st (cfg : Cfg) (kind : Kind) (id : Nat) (t : Key) (r : Res) (st' : St)
     (h : (finishSingle cfg kind id t r).st? = some st') :
     ∃ s2, r.st? = some s2 ∧ ∀ x ∈ s2.inprog, x ≠ t → x ∈ st'.inprog := by
   cases r with
@@ -94,8 +94,9 @@ theorem resolve_sub (cfg : Cfg) (w : World) : ∀ fuel n st st', (resolve cfg w 
       | none =>
         simp only at h
         exact stepKids_st _ Sub Sub.refl (fun _ _ _ => Sub.trans) kids st st' (fun k _ s s' hk => ih k s s' hk) h
-      | some t =>
+      | some t0 =>
         simp only at h
+        generalize keyOf cfg kind t0 = t at h
         split at h
         · simp [Res.st?] at h; subst h; exact Sub.refl _
         · split at h
@@ -111,10 +112,13 @@ theorem resolve_sub (cfg : Cfg) (w : World) : ∀ fuel n st st', (resolve cfg w 
             · simp [Res.st?] at h
             · simp [Res.st?] at h
             · rename_i n' _
-              obtain ⟨s2, hr, hk⟩ := finishSingle_st _ _ _ _ _ _ h
-              have hs := stepKids_st _ Sub Sub.refl (fun _ _ _ => Sub.trans) n'.kids _ s2
-                (fun k _ s s' hk => ih k s s' hk) hr
-              exact base s2 hs hk
+              split at h
+              · obtain ⟨s2, hr, hk⟩ := finish_st _ _ _ _ _ _ _ h
+                exact base s2 (ih _ _ s2 hr) hk
+              · obtain ⟨s2, hr, hk⟩ := finishSingle_st _ _ _ _ _ _ h
+                have hs := stepKids_st _ Sub Sub.refl (fun _ _ _ => Sub.trans) n'.kids _ s2
+                  (fun k _ s s' hk => ih k s s' hk) hr
+                exact base s2 hs hk
             · rename_i n' _
               split at h
               · obtain ⟨s2, hr, hk⟩ := finishSingle_st _ _ _ _ _ _ h
@@ -135,7 +139,7 @@ theorem fresh_mono (w : World) (a b : St) (h : Sub a b) : fresh w b ≤ fresh w 
   simp at hx ⊢
   intro hx'; exact hx (h x hx')
 
-theorem fresh_strict (w : World) (st : St) (t : Text) (ht : t ∈ w.texts) (hn : t ∉ st.inprog) :
+theorem fresh_strict (w : World) (st : St) (t : Key) (ht : t ∈ w.keys) (hn : t ∉ st.inprog) :
     fresh w { st with inprog := st.inprog ++ [t] } + 1 ≤ fresh w st := by
   unfold fresh
   apply filter_len_strict _ _ _ _ t ht
@@ -165,7 +169,7 @@ theorem stepKids_fuel (f : Node → St → Res) :
     | panic s => simp
     | outOfFuel => exact absurd hk (hf k List.mem_cons_self st (Sub.refl _))
 
-theorem finish_fuel (cfg : Cfg) (n' : Node) (kind : Kind) (id : Nat) (t : Text) (r : Res) (h : r ≠ .outOfFuel) :
+theorem finish_fuel (cfg : Cfg) (n' : Node) (kind : Kind) (id : Nat) (t : Key) (r : Res) (h : r ≠ .outOfFuel) :
     finish cfg n' kind id t r ≠ .outOfFuel := by
   cases r with
   | ok s2 => simp only [finish]; split <;> (try split) <;> simp
@@ -174,7 +178,7 @@ theorem finish_fuel (cfg : Cfg) (n' : Node) (kind : Kind) (id : Nat) (t : Text) 
   | panic s => simp [finish]
   | outOfFuel => exact absurd rfl h
 
-theorem finishSingle_fuel (cfg : Cfg) (kind : Kind) (id : Nat) (t : Text) (r : Res) (h : r ≠ .outOfFuel) :
+theorem finishSingle_fuel (cfg : Cfg) (kind : Kind) (id : Nat) (t : Key) (r : Res) (h : r ≠ .outOfFuel) :
     finishSingle cfg kind id t r ≠ .outOfFuel := by
   cases r with
   | ok s2 => simp only [finishSingle]; split <;> simp
@@ -207,6 +211,16 @@ theorem size_pos (n : Node) : 1 ≤ n.size := by
 theorem size_copyAs (n : Node) (i : Nat) : (n.copyAs i).size = n.size := by
   obtain ⟨id, doc, kind, ref, empty, kids⟩ := n
   simp [Node.copyAs, Node.size]
+
+
+theorem keyOf_mem (cfg : Cfg) (w : World) (kind : Kind) (t : Text) (ht : t ∈ w.texts) : keyOf cfg kind t ∈ w.keys := by
+  unfold World.keys keyOf
+  simp only [List.mem_flatMap, List.mem_map, List.mem_cons]
+  cases cfg.keyedByKind with
+  | false => exact ⟨none, Or.inl rfl, t, ht, rfl⟩
+  | true =>
+    refine ⟨some kind, Or.inr ⟨kind, ?_, rfl⟩, t, ht, rfl⟩
+    cases kind <;> simp [allKinds]
 
 theorem resolve_total_aux (cfg : Cfg) (w : World) (S : Nat) (hb : Bounded w S) :
     ∀ fuel n st, n.size + fresh w st * (S + 1) ≤ fuel → resolve cfg w fuel n st ≠ .outOfFuel := by
@@ -242,15 +256,15 @@ theorem resolve_total_aux (cfg : Cfg) (w : World) (S : Nat) (hb : Bounded w S) :
         · split
           · simp
           · rename_i hv hin
-            have htn : t ∉ st.inprog := by simpa using hin
+            have htn : keyOf cfg kind t ∉ st.inprog := by simpa using hin
             by_cases htx : t ∈ w.texts
-            · have hfs := fresh_strict w st t htx htn
-              have hmul : (fresh w { st with inprog := st.inprog ++ [t] } + 1) * (S + 1) ≤ fresh w st * (S + 1) :=
+            · have hfs := fresh_strict w st (keyOf cfg kind t) (keyOf_mem cfg w kind t htx) htn
+              have hmul : (fresh w { st with inprog := st.inprog ++ [keyOf cfg kind t] } + 1) * (S + 1) ≤ fresh w st * (S + 1) :=
                 Nat.mul_le_mul_right _ hfs
               rw [Nat.add_mul] at hmul
               have hsz : 1 ≤ (Node.mk id doc kind (some t) empty kids).size := size_pos _
               have tgtOK : ∀ n', (w.target doc t kind).node? = some n' →
-                  n'.size + fresh w { st with inprog := st.inprog ++ [t] } * (S + 1) ≤ fuel := by
+                  n'.size + fresh w { st with inprog := st.inprog ++ [keyOf cfg kind t] } * (S + 1) ≤ fuel := by
                 intro n' hn'
                 have := hb.2 doc t kind n' hn'
                 omega
@@ -259,10 +273,15 @@ theorem resolve_total_aux (cfg : Cfg) (w : World) (S : Nat) (hb : Bounded w S) :
               · simp
               · simp
               · rename_i n' heq
-                apply finishSingle_fuel
-                apply kidsOK n'
-                have := tgtOK n' (by simp [heq, Tgt.node?])
-                omega
+                split
+                · apply finish_fuel
+                  apply ih
+                  rw [size_copyAs]
+                  exact tgtOK n' (by simp [heq, Tgt.node?])
+                · apply finishSingle_fuel
+                  apply kidsOK n'
+                  have := tgtOK n' (by simp [heq, Tgt.node?])
+                  omega
               · rename_i n' heq
                 split
                 · apply finishSingle_fuel; simp
@@ -280,7 +299,7 @@ theorem resolve_total_aux (cfg : Cfg) (w : World) (S : Nat) (hb : Bounded w S) :
 
 /-! ### no panic: checked assertions, no typed-nil target -/
 
-theorem callbacksOK_of_checked (cfg : Cfg) (hc : cfg.assertsChecked) (pending : List (Text × Kind × Nat)) (t : Text) (k : Kind) :
+theorem callbacksOK_of_checked (cfg : Cfg) (hc : cfg.assertsChecked) (pending : List (Key × Kind × Nat)) (t : Key) (k : Kind) :
     callbacksOK cfg pending t k = true := by
   simp only [callbacksOK, List.all_eq_true]
   intro p _
@@ -305,7 +324,7 @@ theorem stepKids_safe (f : Node → St → Res) :
     | panic x => exact absurd hr (hk x)
     | outOfFuel => simp [Safe]
 
-theorem finish_safe (cfg : Cfg) (hc : cfg.assertsChecked) (n' : Node) (kind : Kind) (id : Nat) (t : Text) (r : Res)
+theorem finish_safe (cfg : Cfg) (hc : cfg.assertsChecked) (n' : Node) (kind : Kind) (id : Nat) (t : Key) (r : Res)
     (h : Safe r) : Safe (finish cfg n' kind id t r) := by
   cases r with
   | ok s2 =>
@@ -316,7 +335,7 @@ theorem finish_safe (cfg : Cfg) (hc : cfg.assertsChecked) (n' : Node) (kind : Ki
   | panic x => exact absurd rfl (h x)
   | outOfFuel => simp [finish, Safe]
 
-theorem finishSingle_safe (cfg : Cfg) (hc : cfg.assertsChecked) (kind : Kind) (id : Nat) (t : Text) (r : Res)
+theorem finishSingle_safe (cfg : Cfg) (hc : cfg.assertsChecked) (kind : Kind) (id : Nat) (t : Key) (r : Res)
     (h : Safe r) : Safe (finishSingle cfg kind id t r) := by
   cases r with
   | ok s2 => simp [finishSingle, callbacksOK_of_checked cfg hc, Safe]
@@ -351,7 +370,9 @@ theorem resolve_safe_aux (cfg : Cfg) (hc : cfg.assertsChecked) (w : World) (hn :
             · simp [Safe]
             · rename_i heq; simp [heq, Tgt.panics] at hnt
             · rename_i heq; simp [heq, Tgt.panics] at hnt
-            · exact finishSingle_safe cfg hc _ _ _ _ (kidsSafe _ _)
+            · split
+              · exact finish_safe cfg hc _ _ _ _ _ (ih _ _)
+              · exact finishSingle_safe cfg hc _ _ _ _ (kidsSafe _ _)
             · split
               · exact finishSingle_safe cfg hc _ _ _ _ (by simp [Safe])
               · exact finish_safe cfg hc _ _ _ _ _ (ih _ _)
@@ -379,8 +400,8 @@ theorem stepKids_mono (f g : Node → St → Res) :
     | err => have hg := h k List.mem_cons_self st (by simp [hk]); rw [hg, hk]
     | panic x => have hg := h k List.mem_cons_self st (by simp [hk]); rw [hg, hk]
 
-theorem finish_outOfFuel (cfg : Cfg) (n' : Node) (kind : Kind) (id : Nat) (t : Text) : finish cfg n' kind id t .outOfFuel = .outOfFuel := rfl
-theorem finishSingle_outOfFuel (cfg : Cfg) (kind : Kind) (id : Nat) (t : Text) : finishSingle cfg kind id t .outOfFuel = .outOfFuel := rfl
+theorem finish_outOfFuel (cfg : Cfg) (n' : Node) (kind : Kind) (id : Nat) (t : Key) : finish cfg n' kind id t .outOfFuel = .outOfFuel := rfl
+theorem finishSingle_outOfFuel (cfg : Cfg) (kind : Kind) (id : Nat) (t : Key) : finishSingle cfg kind id t .outOfFuel = .outOfFuel := rfl
 
 /-- more fuel never changes a decided result -/
 theorem resolve_fuel_mono_aux (cfg : Cfg) (w : World) : ∀ fuel n st, resolve cfg w fuel n st ≠ .outOfFuel →
@@ -405,7 +426,7 @@ theorem resolve_fuel_mono_aux (cfg : Cfg) (w : World) : ∀ fuel n st, resolve c
         by_cases hv : st.value.contains id = true
         · rw [if_pos hv, if_pos hv]
         · simp only [hv, if_false, Bool.false_eq_true] at h ⊢
-          by_cases hin : st.inprog.contains t = true
+          by_cases hin : st.inprog.contains (keyOf cfg kind t) = true
           · rw [if_pos hin, if_pos hin]
           · simp only [hin, if_false, Bool.false_eq_true] at h ⊢
             cases ht : w.target doc t kind with
@@ -414,21 +435,27 @@ theorem resolve_fuel_mono_aux (cfg : Cfg) (w : World) : ∀ fuel n st, resolve c
             | drillPanic => simp
             | single n' =>
               simp only [ht] at h ⊢
-              have hne : stepKids (resolve cfg w fuel) n'.kids { st with inprog := st.inprog ++ [t] } ≠ .outOfFuel := by
-                intro e; rw [e] at h; exact h rfl
-              rw [kidsEq _ _ hne]
+              by_cases hp : (kind == Kind.pathItem && n'.ref.isSome) = true
+              · simp only [hp, if_true] at h ⊢
+                have hne : resolve cfg w fuel (n'.copyAs (copyId id n'.id)) { st with inprog := st.inprog ++ [keyOf cfg kind t] } ≠ .outOfFuel := by
+                  intro e; rw [e] at h; exact h rfl
+                rw [ih _ _ hne]
+              · simp only [hp, if_false, Bool.false_eq_true] at h ⊢
+                have hne : stepKids (resolve cfg w fuel) n'.kids { st with inprog := st.inprog ++ [keyOf cfg kind t] } ≠ .outOfFuel := by
+                  intro e; rw [e] at h; exact h rfl
+                rw [kidsEq _ _ hne]
             | wrapper n' =>
               simp only [ht] at h ⊢
               by_cases hc : st.value.contains n'.id = true
               · rw [if_pos hc, if_pos hc]
               · simp only [hc, if_false, Bool.false_eq_true] at h ⊢
                 have hne : resolve cfg w fuel (n'.copyAs (copyId id n'.id))
-                    { st with inprog := st.inprog ++ [t], pathed := st.pathed ++ [n'.id] } ≠ .outOfFuel := by
+                    { st with inprog := st.inprog ++ [keyOf cfg kind t], pathed := st.pathed ++ [n'.id] } ≠ .outOfFuel := by
                   intro e; rw [e] at h; exact h rfl
                 rw [ih _ _ hne]
             | raw n' =>
               simp only [ht] at h ⊢
-              have hne : resolve cfg w fuel (n'.copyAs (copyId id n'.id)) { st with inprog := st.inprog ++ [t] } ≠ .outOfFuel := by
+              have hne : resolve cfg w fuel (n'.copyAs (copyId id n'.id)) { st with inprog := st.inprog ++ [keyOf cfg kind t] } ≠ .outOfFuel := by
                 intro e; rw [e] at h; exact h rfl
               rw [ih _ _ hne]
 
